@@ -52,6 +52,37 @@ class AliasRewriter(NodeTransformer):
             new_owner = self.visit(node.owner)
             return ast.Attribute(new_owner, node.attr)
 
+    def visit_Call(self, node: ast.Call) -> ast._Node:
+        """:meta private:"""
+        # The function name is not a field reference: only rewrite the arguments.
+        return ast.Call(node.func, [self.visit(arg) for arg in node.args])
+
+    def visit_NamedParam(self, node: ast.NamedParam) -> ast._Node:
+        """:meta private:"""
+        # The parameter name is not a field reference: only rewrite its value.
+        return ast.NamedParam(node.name, self.visit(node.param))
+
+    def visit_Lambda(self, node: ast.Lambda) -> ast._Node:
+        """:meta private:"""
+        # The lambda variable shadows aliases rooted at the same name inside the body.
+        outer_replacements = self.replacements
+        self.replacements = {
+            alias: target
+            for alias, target in outer_replacements.items()
+            if self._root_of(alias) != node.identifier
+        }
+        try:
+            expression = self.visit(node.expression)
+        finally:
+            self.replacements = outer_replacements
+        return ast.Lambda(node.identifier, expression)
+
+    @staticmethod
+    def _root_of(node: ast._Node) -> ast._Node:
+        while isinstance(node, ast.Attribute):
+            node = node.owner
+        return node
+
 
 class IdentifierStripper(NodeTransformer):
     """
